@@ -26,17 +26,50 @@ def base_name(ob):
     return re.sub(r' \[path \d+\]$', '', ob)
 
 
+def norm_name(ob):
+    """obligation name without path index and source line numbers (stable under harmless edits)"""
+    n = base_name(ob)
+    n = re.sub(r'\bline \d+', 'line N', n)
+    return re.sub(r':\d+\b', ':N', n)
+
+
+EXPECTED_DIR = os.path.join(VERIF, 'contracts', 'expected')
+EXPECTED_KINDS = ('post', 'inv-entry', 'inv-step', 'lemma', 'zip', 'typestate')
+
+
+def load_expected(prop):
+    p = os.path.join(EXPECTED_DIR, prop + '.json')
+    return json.load(open(p)) if os.path.exists(p) else {}
+
+
 def contract_modules():
     return sorted(glob.glob(os.path.join(VERIF, 'contracts', 'c*.py')))
 
 
+# Modular verification: a property proved over the CONTRACT of a callee holds only if that contract is discharged too.
+# DEPENDS lists, per property, the tasks (name patterns) that discharge the contracts its own tasks assume, so that a change
+# breaking the callee (e.g. Comparable, the sort) is reported by every property that is carried by it.
+DEPENDS = {
+    'C05': ['C04.ladder', 'C04.lex'],
+    'C06': ['C04.ladder', 'C04.lex', 'C05.*', 'C12.iterstack*', 'C12.asindices*'],
+    'C07': ['C12.asindices*'],
+    'C08': ['C04.ladder', 'C04.lex', 'C05.*'],
+    'C09': ['C04.ladder', 'C04.lex', 'C05.*'],
+    'C10': ['C04.ladder', 'C04.lex', 'C05.*'],
+    'C11': ['C04.ladder', 'C04.lex'],
+    'C13': ['C04.ladder', 'C04.lex'],
+    'C14': ['C12.asindices*'],
+}
+
+
 def tasks_for(prop):
-    """(module path, task name) of every pyvc task registered for the property"""
+    """(module path, task name) of every pyvc task registered for the property, plus the tasks discharging contracts they assume"""
     from pyvc import run as prun
     out = []
+    pats = DEPENDS.get(prop, [])
     for p in contract_modules():
         for t in prun.load(p):
-            if prop in t.props:
+            if prop in t.props or any(fnmatch.fnmatchcase(t.name, pat) for pat in pats):
                 out.append((p, t))
     return out
 
@@ -129,7 +162,8 @@ def main(argv):
     by_backend, solver_s = {}, 0.0
     cross = {}
     functions, assumptions, samples_ob, lemmas, canaries = {}, [], [], 0, 0
-    refuted = []
+    refuted, lost = [], []
+    expected = load_expected(prop)
     for rep in ded:
         if rep.get('fault'):
             faults.append('%s: %s' % (rep['task'], rep['unsupported']))
@@ -174,19 +208,29 @@ def main(argv):
                 refuted.append((key, o, None, rep))
             elif o['status'] == 'disagree':
                 faults.append('solver disagreement on ' + key)
+            elif norm_name(o['obligation']) in expected.get(rep['task'], ()) and not rep['unsupported']:
+                # an obligation the verifier discharges on the pinned tree and no longer accepts: the named obligation fails
+                lost.append((key, o, rep))
             else:
                 undecided.append('%s: %s (%s)' % (key, o['status'], o['detail']))
-    # expected obligations (committed): a lost obligation is a lost proof
-    exp_path = os.path.join(VERIF, 'contracts', 'expected_obligations.json')
-    if os.path.exists(exp_path) and ded and not a.no_deductive:
-        exp = json.load(open(exp_path)).get(prop, {})
+    # expected obligations (committed, generated from the pinned tree by tools/gen_expected.py): one that is no longer
+    # generated is a lost proof (vacuity guard) -- undecided, since no named obligation failed
+    if ded and not a.no_deductive:
         got = {}
         for rep in ded:
-            got[rep['task']] = set(base_name(o['obligation']) for o in rep['results'])
-        for task, names in exp.items():
-            missing = [n for n in names if n not in got.get(task, set())]
+            got[rep['task']] = set(norm_name(o['obligation']) for o in rep['results'])
+        for task, names in expected.items():
+            if task not in got:
+                continue
+            missing = [n for n in names if n not in got[task]]
             if missing and not any(u.startswith(task + ':') for u in undecided):
                 undecided.append('%s: %d expected obligation(s) no longer generated, e.g. %r' % (task, len(missing), missing[0]))
+        if os.environ.get('VERIF_WRITE_EXPECTED') == '1' and 'VERIF_REPO' not in os.environ:
+            os.makedirs(EXPECTED_DIR, exist_ok=True)
+            allx = {rep['task']: sorted(set(norm_name(o['obligation']) for o in rep['results']
+                                                    if o['kind'] in EXPECTED_KINDS and o['status'] == 'unsat'))
+                          for rep in ded if not rep.get('fault')}
+            json.dump(allx, open(os.path.join(EXPECTED_DIR, prop + '.json'), 'w'), indent=0, sort_keys=True)
 
     bcov = {}
     bfail = []
@@ -218,7 +262,23 @@ def main(argv):
         else:
             path = write_replay(prop, nviol, payload)
             lines.append('VIOLATION property=%s replay=%s obligation="%s" no-failing-input-found' % (prop, path, key))
-    if not refuted:
+    # lost proofs: obligations discharged on the pinned tree that the verifier no longer accepts (no counter-model)
+    seen_l = set()
+    for key, o, rep in lost:
+        if key in seen_l:
+            continue
+        seen_l.add(key)
+        nviol += 1
+        related = [f for f in bfail if any(fn.split('.')[-1] in json.dumps(f) for fn in rep['functions'])] or bfail
+        payload = {'property': prop, 'kind': 'deductive-lost-proof', 'obligation': key, 'where': o.get('where'), 'solver': o.get('backend'),
+                   'status': o.get('status'), 'verifier_output': o.get('detail'), 'functions': rep['functions'], 'hashes': rep['hashes'],
+                   'note': 'discharged on the pinned tree (contracts/expected/<id>.json), not accepted on this tree; the solver gave no counter-model'}
+        if related:
+            payload['replay'] = related[0]
+            lines.append('VIOLATION property=%s replay=%s obligation="%s"' % (prop, write_replay(prop, nviol, payload), key))
+        else:
+            lines.append('VIOLATION property=%s replay=%s obligation="%s" no-failing-input-found' % (prop, write_replay(prop, nviol, payload), key))
+    if not refuted and not lost:
         # bounded failures alone (group by key so that one defect gives one line)
         seen = set()
         for f in bfail:
